@@ -1,6 +1,7 @@
 package c14
 
 import (
+	"fmt"
 	"runtime"
 
 	"github.com/anyproto/any-sync/util/crypto"
@@ -112,7 +113,7 @@ func runReplay(c *lib.Case) {
 			c.Count("replay.rejected_on_other_endpoints", 1)
 			c.Count("replay.reject_reason."+errClass(out.r[v.verifier].err), 1)
 		}
-		c.Nontrivial(v.name + "/" + oc)
+		c.Nontrivial(fmt.Sprintf("%s/%s/%s/close=%v", v.name, oc, chunkNames[o.chunk], o.incCloseOnErr))
 		c.Sample(v.name, map[string]any{"outgoing_verdict": errStr(out.r[0].err), "incoming_verdict": errStr(out.r[1].err)})
 	}
 
